@@ -43,7 +43,8 @@ Definition cT (p1 : nat) (st1 : status) : bool := is_ready st1 && inl p1 [1;2].
 Definition cross (p0 : nat) (st0 : status) (p1 : nat) (st1 : status) : bool :=
   Bool.eqb (is_ns st1) (p0 <=? 2) && negb (mM p0 st0 && cM p1 st1) && negb (mT p0 st0 && cT p1 st1) &&
   implb (6 <=? p0) (2 <=? p1) && implb (25 <=? p0) (is_done st1) && implb (14 <=? p1) (17 <=? p0) &&
-  implb (is_ready st1 && inl p1 [12]) (p0 <=? 15) .
+  implb (is_ready st1 && inl p1 [12]) (p0 <=? 15) &&
+  implb (is_asleep st0) (p1 <=? 3) && implb (is_ready st0 && inl p0 [4]) (p1 <=? 1).
 Definition ownT (p0 : nat) (st0 : status) (p1 : nat) (st1 : status) : option tid :=
   if mT p0 st0 then Some 0 else if cT p1 st1 then Some 1 else None.
 Definition prodok (pp : nat) (stp : status) : bool :=
@@ -81,9 +82,19 @@ Definition PRi (s : state) (p0 c0 : nat) (om : option tid) (i : nat) : Prop :=
     (om = Some (2 + i) <-> powns pp stp = true) /\
     map snd (filter (fun c => fst c =? 2 + i) (subm s)) = seq 0 cp.
 
-Definition qfacts (s : state) (p0 p1 : nat) : Prop :=
+Definition qfacts (s : state) (p0 p1 : nat) (st1 : status) : Prop :=
   (p1 = 6 -> que s 0 <> []) /\ (inl p0 [31;42] = true -> que s 0 <> []) /\
-  (inl p0 [46;47] = true -> que s 0 = []).
+  (inl p0 [46;47] = true -> que s 0 = []) /\
+  (is_ready st1 && inl p1 [11;12] = true -> que s 0 = []).
+
+(* the wake-up invariant: a consumer sleeping on the condition variable has nothing to do, or somebody
+   is about to signal it *)
+Definition pendp (s : state) (i : nat) : Prop :=
+  stat (thr s (2 + i)) = Ready /\ inl (pc (thr s (2 + i))) [3;4] = true.
+Definition wakeinv (s : state) (p0 : nat) (st0 st1 : status) : Prop :=
+  is_asleep st1 = true ->
+  (que s 0 = [] /\ (17 <=? p0) = false) \/ (is_ready st0 && inl p0 [17;18] = true) \/
+  (exists i, i < NP /\ pendp s i).
 
 Definition Rex (s : state) : Prop :=
   exists p0 st0 r0 c0 l0 cu0 p1 st1 r1 c1 l1 cu1 om,
@@ -105,7 +116,7 @@ Definition Rex (s : state) : Prop :=
     var s 0 = (if 17 <=? p0 then 1 else 0) /\
     var s 1 = (if (2 <=? p1) && (p0 <=? 26) then 1 else 0) /\
     (forall o, alive s o = true) /\
-    qfacts s p0 p1 /\
+    qfacts s p0 p1 st1 /\ wakeinv s p0 st0 st1 /\
     subm s = map fst (ran s) ++ ol cu1 ++ ol cu0 ++ que s 0 /\
     (forall c t, In (c, t) (ran s) -> t <= 1) /\
     (forall c, In c (subm s) -> 2 <= fst c < 2 + NP) /\
